@@ -5,6 +5,7 @@ package scen
 import (
 	"context"
 	"fmt"
+	"os"
 	"time"
 
 	"github.com/gopcua/opcua"
@@ -96,3 +97,44 @@ func errStr(err error) string {
 
 var _ = fmt.Sprint
 var _ = time.Second
+
+// wireLog prints the decoded None-mode traffic of a connection to stderr
+// when VERIF_WIRE is set (debugging aid; never part of an oracle).
+func wireLog(s *sim.Sim, c *sim.Conn) {
+	if os.Getenv("VERIF_WIRE") == "" {
+		return
+	}
+	id := c.ID
+	wl := func(dir string) func(fr []byte) {
+		return func(fr []byte) {
+			if len(fr) >= 24 && string(fr[:4]) == "MSGF" {
+				if _, svc, err := ua.DecodeService(fr[24:]); err == nil {
+					extra := ""
+					switch x := svc.(type) {
+					case *ua.ServiceFault:
+						extra = x.ResponseHeader.ServiceResult.Error()
+					case *ua.CreateSubscriptionResponse:
+						extra = fmt.Sprint("id=", x.SubscriptionID)
+					case *ua.DeleteSubscriptionsRequest:
+						extra = fmt.Sprint(x.SubscriptionIDs)
+					case *ua.CreateMonitoredItemsRequest:
+						extra = fmt.Sprint("sub=", x.SubscriptionID, " n=", len(x.ItemsToCreate))
+					case *ua.PublishResponse:
+						extra = fmt.Sprint("h=", x.ResponseHeader.RequestHandle, " sub=", x.SubscriptionID, " seq=", x.NotificationMessage.SequenceNumber, " nd=", len(x.NotificationMessage.NotificationData), " res=", x.Results, " ", x.ResponseHeader.ServiceResult)
+					case *ua.PublishRequest:
+						var a []string
+						for _, k := range x.SubscriptionAcknowledgements {
+							a = append(a, fmt.Sprintf("%d/%d", k.SubscriptionID, k.SequenceNumber))
+						}
+						extra = fmt.Sprint("h=", x.RequestHeader.RequestHandle, " acks=", a, " timeoutHint=", x.RequestHeader.TimeoutHint)
+					}
+					fmt.Fprintf(os.Stderr, "W %10v c%d %s %T %s\n", s.Now(), id, dir, svc, extra)
+					return
+				}
+			}
+			fmt.Fprintf(os.Stderr, "W %10v c%d %s %s (%d bytes)\n", s.Now(), id, dir, string(fr[:4]), len(fr))
+		}
+	}
+	c.C2S.Observers = append(c.C2S.Observers, wl(">"))
+	c.S2C.DeliveredObservers = append(c.S2C.DeliveredObservers, wl("<"))
+}
